@@ -179,6 +179,83 @@ Definition rowGuard (mdb : Z) (predictor colors bpc columns : option Z) (maxLen 
          end
   end.
 
+(* ---- RunLengthDecode: the decode loop with its own limit counter ---- *)
+(* runLengthDecode.go decode.  Bytes are N (< 256).  The counter `written` is incremented ONCE PER BYTE
+   written and compared with `limit == written` BEFORE every byte: that pairing is what keeps
+   written <= limit.  rlres carries the bytes written so far (the caller drops them on error). *)
+Inductive rlres := RLOk (out : list N) | RLErrLimit (out : list N) | RLErrEOF (out : list N) | RLFuel.
+
+Inductive rlstep := RLStop (r : rlres) | RLCont (src : list N) (written : Z) (out : list N).
+
+Definition rl_at_limit (limit written : Z) : bool := (0 <=? limit) && (limit =? written).
+Definition rl_stop (maxLen : Z) (out : list N) : rlres :=
+  if 0 <=? maxLen then RLOk (rev out) else RLErrLimit (rev out).
+
+(* literal run: for range c { check; w.WriteByte(src[i]); written++; i++ } *)
+Fixpoint rl_literal (c : nat) (src : list N) (limit maxLen written : Z) (out : list N) : rlstep :=
+  match c with
+  | O => RLCont src written out
+  | S c' =>
+    if rl_at_limit limit written then RLStop (rl_stop maxLen out)
+    else match src with
+         | [] => RLStop (RLErrEOF (rev out))          (* unreachable: len(src)-i >= c was checked *)
+         | x :: src' => rl_literal c' src' limit maxLen (written + 1) (x :: out)
+         end
+  end.
+
+(* repeat run: for range c { check; w.WriteByte(src[i]); written++ } *)
+Fixpoint rl_repeat (c : nat) (x : N) (limit maxLen written : Z) (out : list N) : rlstep :=
+  match c with
+  | O => RLCont [] written out
+  | S c' =>
+    if rl_at_limit limit written then RLStop (rl_stop maxLen out)
+    else rl_repeat c' x limit maxLen (written + 1) (x :: out)
+  end.
+
+Fixpoint rl_loop (fuel : nat) (src : list N) (limit maxLen written : Z) (out : list N) : rlres :=
+  match fuel with
+  | O => match src with [] => RLOk (rev out) | _ => RLFuel end
+  | S fuel' =>
+    match src with
+    | [] => RLOk (rev out)
+    | b :: rest =>
+      if (b =? 128)%N then RLOk (rev out)                                   (* eod *)
+      else if (b <? 128)%N then
+        let c := S (N.to_nat b) in
+        if (length rest <? c)%nat then RLErrEOF (rev out)
+        else match rl_literal c rest limit maxLen written out with
+             | RLStop r => r
+             | RLCont src' w' out' => rl_loop fuel' src' limit maxLen w' out'
+             end
+      else match rest with
+           | [] => RLErrEOF (rev out)
+           | x :: rest' =>
+             match rl_repeat (N.to_nat (257 - b)) x limit maxLen written out with
+             | RLStop r => r
+             | RLCont _ w' out' => rl_loop fuel' rest' limit maxLen w' out'
+             end
+           end
+    end
+  end.
+
+Definition rlDecode (mdb maxLen : Z) (src : list N) : rlres :=
+  rl_loop (length src) src (decodeLimit mdb maxLen) maxLen 0 [].
+
+Definition rl_out (r : rlres) : list N :=
+  match r with RLOk o | RLErrLimit o | RLErrEOF o => o | RLFuel => [] end.
+
+(* ---- ASCIIHexDecode: the length gate before make([]byte, maxLen) ----
+   digits = hex digits left after white space / EOD removal and padding to an even count *)
+Inductive ahxres := AHAlloc (n : Z) | AHErrLimit | AHErrEOF | AHErrOverflow.
+Definition ahxGate (mdb digits maxLen : Z) : ahxres :=
+  let decodedLen := digits / 2 in
+  if maxLen <? 0 then
+    let limit := decodeLimit mdb (-1) in
+    if (0 <=? limit) && (limit <? decodedLen) then AHErrLimit
+    else if maxInt64 / 2 <? decodedLen then AHErrOverflow else AHAlloc decodedLen
+  else if decodedLen <? maxLen then AHErrEOF
+  else if maxInt64 / 2 <? maxLen then AHErrOverflow else AHAlloc maxLen.
+
 (* ---- decode call sites (table produced by go/cmd/genc09 into Generated.v) ---- *)
 (* LField: the limit is read from a struct field X.MaxDecodeBytes (LazyObjectStreamObject.GetData reads
    osd.MaxDecodeBytes); what it holds is decided by the constructions of that struct (second table) *)
